@@ -832,3 +832,11 @@ mod tests {
     // TODO: Test invalid datagrams
 }
 
+
+#[cfg(uflow_verif)]
+impl PacketReceiver {
+    pub fn verif_end_id(&self) -> u32 { self.end_id }
+    pub fn verif_window_size(&self) -> u32 { self.receive_window_size }
+    pub fn verif_alloc(&self) -> usize { self.assembly_window.verif_alloc() }
+    pub fn verif_max_alloc(&self) -> usize { self.assembly_window.verif_max_alloc() }
+}
